@@ -343,6 +343,38 @@ def optional_syntax(ctx):
         ctx.finding(rule, f'{ps.file}:parse_string:same-body',
                     'parse_string no longer appends every statement of '
                     'every line to the current body list', ps.file, ps.line)
+    # every physical line goes through the grammar: the call of the line
+    # rule is not control-dependent on anything (no lexical shortcut on
+    # the raw text outside the grammar)
+    from ..cfg import build_cfg, repo_noreturn
+    cfg = build_cfg(ps.node, repo_noreturn)
+    calls = [x for x in cfg.nodes if x.kind == 'stmt' and any(
+        isinstance(c, ast.Call) and isinstance(c.func, ast.Attribute) and
+        c.func.attr == 'parse_string' for c in ast.walk(x.ast))]
+    if not calls:
+        raise AnalysisError('anchor vanished: line rule call in '
+                            'parse_string')
+    for x in calls:
+        conds = [(unparse(t.ast.test), lab) for t, lab in cfg.conditions(x)
+                 if t.kind == 'test']
+        ctx.instance(rule, f'{ps.file}:parse_string:every-line-parsed',
+                     sample={'conditions': conds})
+        if conds:
+            ctx.finding(rule, f'{ps.file}:parse_string:every-line-parsed',
+                        f'the grammar is applied to a line only under '
+                        f'{conds}: lines are classified on their raw text '
+                        f'outside the grammar, so spelling variants of one '
+                        f'statement can be treated differently', ps.file,
+                        x.line)
+    loops = [n for n in ast.walk(ps.node) if isinstance(n, ast.For) and
+             "split('\\n')" in unparse(n.iter)]
+    for lp in loops:
+        skips = [s for s in ast.walk(lp) if isinstance(s, ast.Continue)]
+        ctx.instance(rule, f'{ps.file}:parse_string:no-line-skipped')
+        if skips:
+            ctx.finding(rule, f'{ps.file}:parse_string:no-line-skipped',
+                        'parse_string skips some physical lines without '
+                        'parsing them', ps.file, skips[0].lineno)
     # NEXT variable is only checked, never used for generation
     gens, _ = R.generators(repo)
     fb = repo.func('qbee.stmt', 'ForBlock.create_block')
